@@ -3,8 +3,10 @@
    classification of Command._parse_line and Restraint._parse_line, float() on the numeral grammar, and for every
    keyword the condition under which its constructor or its branch of _parse_cards raises); syntax table:
    Spec/Syntax.v, generated from the table the generators use and compared on every run with the syntax summary
-   documented in shelxfile/shelx/cards.py.  Quiet-mode totality on malformed text and mode independence are checked
-   on the implementation (harness/props/c02.py), not proved. *)
+   documented in shelxfile/shelx/cards.py.  Modes: C02_parse_modes_agree - for valid input every mode processes every line and
+   none raises; C02_quiet_never_raises - outside debug mode the card loop of the model never raises (a model of the one
+   try/except; that the implementation swallows every exception there, also on malformed text, is checked by mutation fuzzing
+   in harness/props/c02.py, not proved). *)
 From SX Require Import Base.Str Model.Symm Model.Cards Spec.Syntax Proofs.CardsProofs.
 From Coq Require Import QArith.
 
@@ -41,3 +43,11 @@ Theorem C02_sadi_valid : exists e, In e syntax_table /\ sy_kw e = "SADI"%string 
   valid_instr e [lit "0.02"] [lit "C1"; lit "C2"].
 Proof. exact (sadi_valid ). Qed.
 Print Assumptions C02_sadi_valid.
+
+Theorem C02_parse_modes_agree (ls : list (string * list str)) : Forall valid_line ls -> forall m k, parse_mode m ls k = Done (k + length ls).
+Proof. exact (parse_modes_agree ls). Qed.
+Print Assumptions C02_parse_modes_agree.
+
+Theorem C02_quiet_never_raises (ls : list (string * list str)) m : m <> Debug -> forall k, exists n, parse_mode m ls k = Done n.
+Proof. exact (quiet_never_raises ls m). Qed.
+Print Assumptions C02_quiet_never_raises.
